@@ -96,11 +96,25 @@ def probe(ctx, programs, variant="plain"):
                     ed.append(("s", 0, b""))
             tl = tails(ed)
             os.remove(path)
-        res.append(dict(entries=entries, marks=marks, ok=bool(ll) and "FAULT" not in line, raw=line[-200:], tails=tl))
+            # first chunk of each (tag, chunk_meta) on a track (DATA / INDEX / SUMMARY): the write that also triggers a head-table update
+            seen, end, firsts = set(), 0, []
+            for i, (kd, off, data) in enumerate(ed):
+                if kd == "t":
+                    end = min(end, off)
+                elif kd == "w":
+                    if off >= end and len(data) == 32 and off >= 32 and (data[16] & 0x20) and (data[16] & 7) >= 2:
+                        key = (data[16], data[18], data[19])
+                        if key not in seen:
+                            seen.add(key)
+                            firsts.append(i)
+                    end = max(end, off + len(data))
+        else:
+            firsts = []
+        res.append(dict(entries=entries, marks=marks, ok=bool(ll) and "FAULT" not in line, raw=line[-200:], tails=tl, firsts=firsts))
     return res
 
 
-def crash_points(rng, entries, tier, per_program, tails=None):
+def crash_points(rng, entries, tier, per_program, tails=None, firsts=None):
     """all k; for in-place writes every j, for appends a few j"""
     pts = []
     end = 0
@@ -139,10 +153,21 @@ def crash_points(rng, entries, tier, per_program, tails=None):
             nxt = entries[k] if k < len(entries) else None
             ends = [e[1] + e[2] for e in entries[:k] if e[0] == 0]
             return bool(nxt) and nxt[0] == 0 and bool(ends) and nxt[1] < max(ends)
-        keep = [p for p in pts if structural(p)]
-        if len(keep) > (2 * per_program) // 3:
+        # ... and every clean stop around the FIRST chunk of each kind on a track (the append whose offset goes into the head table):
+        # from two writes before its header to the write after its footer
+        near_first = set()
+        for e in (firsts or []):
+            near_first.update(range(e - 2, e + 5))
+        first_pts = [p for p in pts if p[1] == 0 and p[0] in near_first]
+        if len(first_pts) > per_program // 2:
+            rng.shuffle(first_pts)
+            first_pts = first_pts[:per_program // 2]
+        fs = set(first_pts)
+        keep = [p for p in pts if structural(p) and p not in fs]
+        if len(keep) > (2 * per_program) // 3 - len(first_pts):
             rng.shuffle(keep)
-            keep = keep[:(2 * per_program) // 3]
+            keep = keep[:max(0, (2 * per_program) // 3 - len(first_pts))]
+        keep = first_pts + keep
         ks = set(keep)
         rest = [p for p in pts if p not in ks]
         rng.shuffle(rest)
